@@ -7,8 +7,9 @@ EMPTY_COVERAGE = dict(evaluations=0, distinct_nontrivial=0, rule="", samples=[])
 B = 8192  # BUFSIZ on this platform (checked below)
 
 
-def build_tools(san=None):
-    lib = build.build_lib("asm", san=san, opt="-O1" if san else "-O2")
+def build_tools(san=None, nogetopt=False):
+    """nogetopt: the configuration a libc without getopt() gives (the tools then use their own command-line parser)"""
+    lib = build.build_lib("asm", san=san, opt="-O1" if san else "-O2", drop=(("HAVE_GETOPT", "HAVE_GETOPT_H") if nogetopt else ()))
     apps = os.path.join(build.REPO, "apps")
     crypt = build.build_prog("asconcrypt", [os.path.join(apps, "asconcrypt", f) for f in ("asconcrypt.c", "fileops.c", "readpass.c")] + ["harness/ioshim.c"],
                              lib, opt="-O1", extra=["-DHAVE_CONFIG_H", "-I" + os.path.join(apps, "asconcrypt")], cfg_dep=True)
@@ -613,6 +614,22 @@ def run(ctx):
                 ctx.fail("asconsum:unreadable:%s" % flag, "argument %s: exit %d, output %r" % (os.path.basename(bad), rc, o[:200]))
             ctx.stat("nontrivial")
 
+    # ---------------- the tools as a libc without getopt() gets them (their own command-line parser): the option-handling parts again
+    try:
+        _, crypt, summ = build_tools(nogetopt=True)
+        orig_fail = ctx.fail
+        ctx.fail = lambda key, *a, **k: orig_fail("nogetopt:" + key, *a, **k)
+        try:
+            common.parallel(roundtrip, [(n, pk, 1) for n in (0, 17, B + 1) for pk in ("short", "long", "keyfile")] + [(n, "short", 1, prior) for n in (1, B) for prior in ("longer", "shorter")])
+            genkey()
+            keyfile_syntax()
+            common.parallel(stdio_modes, [0, 17])
+            multi_file()
+        finally:
+            ctx.fail = orig_fail
+        ctx.configs.append("tools without getopt()")
+    except build.BuildError as e:
+        ctx.fail("build-error:tools-without-getopt", str(e)[-500:])
     shutil.rmtree(root, ignore_errors=True)
     ctx.sample("asconcrypt round trip: sizes %s x passwords {1 char, 1023 chars, key file}" % sizes[:8])
     ctx.sample("tamper: every bit of every byte + every truncation length of the encrypted files for small plaintexts; every k-th read/write/open/getrandom failure for encrypt and decrypt (%d fault plans)" % ctx.stats.get("fault_plans", 0))
